@@ -68,7 +68,7 @@ def exEnv : Env :=
 def exReq : Req :=
   locate exEnv ⟨.v4, 3221225985, 0, 1, 1,
     [⟨false, [.ecs ⟨1, 4, 3325256781, 32, 0⟩]⟩,
-     ⟨false, [.other 65001, .ecs ⟨1, 4, 3221225985, 32, 0⟩, .ecs ⟨1, 4, 16909056, 24, 0⟩]⟩], none, none⟩
+     ⟨false, [.other 65001, .ecs ⟨1, 4, 3221225985, 32, 0⟩, .ecs ⟨1, 4, 16909056, 24, 0⟩]⟩], none, none, 0⟩
 def exUp : Up := ⟨false, true, 7, [⟨false, [.ecs ⟨1, 4, 1681915904, 16, 16⟩]⟩]⟩
 
 example : (serve exEnv St.empty exReq exUp).2.up =
@@ -661,7 +661,7 @@ example :
 def exDBEnv : Env := exDB.env (fun _ _ => some ⟨1, 0, 42⟩) (fun _ => false)
 example :
     (serve exDBEnv St.empty
-      (locate exDBEnv ⟨.v4, 3221225985, 0, 1, 1, [⟨false, [.ecs ⟨1, 4, 3221225985, 32, 0⟩]⟩], none, none⟩)
+      (locate exDBEnv ⟨.v4, 3221225985, 0, 1, 1, [⟨false, [.ecs ⟨1, 4, 3221225985, 32, 0⟩]⟩], none, none, 0⟩)
       exUp).2.up.map ecsOpts = some [.ecs ⟨1, 4, 1681915904, 24, 0⟩] := by decide
 
 /-! ## `geoip.File.Data`: a finding
@@ -729,6 +729,35 @@ theorem data_cache_counterexample :
   have := h (fun _ a => if a < 201326720 then ⟨3, 0, 0⟩ else ⟨1, 0, 0⟩) .v4 201326593 201326721
   revert this
   decide
+
+/-- **data_cache_block_local.** The other side of the finding, for every database and every history
+of look-ups since the last refresh (`Refresh` clears the cache): the location `Data` attributes to
+an address is the database's location of that address or of an address that was asked earlier and
+lies in the SAME /24 (IPv4) resp. /56 (IPv6) block.  The cache never carries a location from one
+block to another: the imprecision of the known finding is bounded by one block (this is what a
+coarser `ipToCacheKey` would break; `ipkey_returns_src` ties the block size to the source and the
+run `geoCacheFinding` checks it for every position of the first differing bit). -/
+theorem data_cache_block_local (lookup : Fam → Nat → Loc) (qs : List (Fam × Nat)) (f : Fam) (a : Nat) :
+    ∃ a', ((f, a') ∈ qs ∨ a' = a) ∧ blockOf f a' = blockOf f a ∧
+      (dataCached lookup (dataRun lookup (fun _ _ => none) qs) f a).1 = lookup f a' := by
+  have hinv : CacheFrom lookup (dataRun lookup (fun _ _ => none) qs) ([] ++ qs) :=
+    cacheFrom_run lookup qs _ [] (by intro f k l h; simp at h)
+  unfold dataCached
+  split
+  · rename_i l hl
+    obtain ⟨a', hm, hb, hlk⟩ := hinv f _ l hl
+    exact ⟨a', Or.inl (by simpa using hm), hb, hlk.symm⟩
+  · exact ⟨a, Or.inr rfl, rfl, rfl⟩
+
+/-- Non-vacuity: after 12.0.0.1, the address 12.0.1.1 (next block) gets its own location although
+12.0.0.129 (same block) does not. -/
+example :
+    (dataCached (fun _ a => if a < 201326720 then ⟨3, 0, 0⟩ else ⟨1, 0, 0⟩)
+      (dataRun (fun _ a => if a < 201326720 then ⟨3, 0, 0⟩ else ⟨1, 0, 0⟩) (fun _ _ => none) [(.v4, 201326593)])
+      .v4 201326849).1 = ⟨1, 0, 0⟩ ∧
+    (dataCached (fun _ a => if a < 201326720 then ⟨3, 0, 0⟩ else ⟨1, 0, 0⟩)
+      (dataRun (fun _ a => if a < 201326720 then ⟨3, 0, 0⟩ else ⟨1, 0, 0⟩) (fun _ _ => none) [(.v4, 201326593)])
+      .v4 201326721).1 = ⟨3, 0, 0⟩ := by decide
 
 /-! ## The cache keys: what is hashed determines the partition
 
@@ -1129,6 +1158,31 @@ example :
     locOf { exReq with cl := some ⟨1, 0, 42⟩, el := some ⟨0, 0, 7⟩ } = ⟨1, 0, 42⟩ ∧
     locOf { exReq with extra := [], cl := some ⟨1, 5, 42⟩, el := some ⟨2, 0, 9⟩ } = ⟨1, 0, 42⟩ := by decide
 
+/-! ## Question names
+
+The cache keys and the host check use `ri.Host = agdnet.NormalizeDomain(q.Name)`; the fake-ECS list is
+asked about the name as the message spells it (`reqinfo_host_src`, `dep_name_arg_src`). -/
+
+/-- **normalize_case_insensitive.** Two spellings of a name that differ only in the case of ASCII
+letters (with or without the final dot on both) have the same normalised host, hence the same cache
+keys: every theorem above that says "same host" says "same name up to case" for requests from the
+wire (`hostOfName`). -/
+theorem normalize_case_insensitive (n m : List Nat) (h : n.map lowerByte = m.map lowerByte) :
+    normalizeDomain n = normalizeDomain m ∧ hostOfName n = hostOfName m := by
+  have : normalizeDomain n = normalizeDomain m := by rw [normalizeDomain_eq, normalizeDomain_eq, h]
+  exact ⟨this, by unfold hostOfName; rw [this]⟩
+
+/-- **fake_list_spelling_sensitive** (what the code does, not a violation of the property): "0CF.IO."
+and "0cf.io." share their cache entries but not their membership in `FakeECSFQDNs`, which is asked
+about the spelled name: a scoped answer for "0CF.IO." is kept per subnet (the conservative side). -/
+theorem fake_list_spelling_sensitive :
+    hostOfName [48, 67, 70, 46, 73, 79, 46] = hostOfName [48, 99, 102, 46, 105, 111, 46] ∧
+    qnOfName [48, 67, 70, 46, 73, 79, 46] ≠ qnOfName [48, 99, 102, 46, 105, 111, 46] ∧
+    normalizeDomain [48, 67, 70, 46, 73, 79, 46] = [48, 99, 102, 46, 105, 111] := by decide
+
+/-- Non-vacuity: "A.Example." and "a.EXAMPLE." -/
+example : [65, 46, 69, 120, 46].map lowerByte = [97, 46, 101, 88, 46].map lowerByte := by decide
+
 #print axioms upstream_subnet_private
 #print axioms upstream_noninterference
 #print axioms declined_never_subnet_cache
@@ -1154,6 +1208,7 @@ example :
 #print axioms data_cache_exact_when_db_coarse
 #print axioms data_cache_first_lookup_decides
 #print axioms data_cache_counterexample
+#print axioms data_cache_block_local
 #print axioms cache_key_bytes_injective
 #print axioms noecs_key_bytes_injective
 #print axioms leading_bytes_key_counterexample
@@ -1170,6 +1225,8 @@ example :
 #print axioms refresh_window_subnet_assigned
 #print axioms locOf_spec
 #print axioms loc_single_source
+#print axioms normalize_case_insensitive
+#print axioms fake_list_spelling_sensitive
 
 
 end Agd.ECS
